@@ -33,10 +33,13 @@ Definition is_comma (c : Z) : bool := c =? 44.
     two repairs proposed_fixes/C16-plus-sign.diff and C16-smooth-ctrl.diff ([fixed]).
     [cfg_plus]: [get_cmd]'s "plausible number start" accepts '+'.
     [cfg_smooth]: S/s (T/t) reflect [last_ctrl] only when [last_cmd] is C/c/S/s (Q/q/T/t),
-    and Z/z clears [last_ctrl]. *)
-Record Cfg := mkCfg { cfg_plus : bool; cfg_smooth : bool }.
-Definition pinned : Cfg := mkCfg false false.
-Definition fixed : Cfg := mkCfg true true.
+    and Z/z clears [last_ctrl].
+    [cfg_arc] (proposed_fixes/C16-arc-degenerate.diff): [from_svg_arc] returns [None] when
+    [sum_of_sq] is zero (pinned: [debug_assert!], i.e. a panic in debug builds and NaN in release
+    builds), and an arc for which no cubic is produced becomes a line to the end point. *)
+Record Cfg := mkCfg { cfg_plus : bool; cfg_smooth : bool; cfg_arc : bool }.
+Definition pinned : Cfg := mkCfg false false false.
+Definition fixed : Cfg := mkCfg true true true.
 
 (** [get_cmd]'s "plausible number start": '-' '.' digit, and '+' after the repair *)
 Definition number_start (plus : bool) (c : Z) : bool :=
@@ -199,9 +202,35 @@ Definition is_straight_line (a : SvgArc) : bool :=
   (fabs (vx (sa_radii a)) <=? lit_1em5) || (fabs (vy (sa_radii a)) <=? lit_1em5)
   || pt_eqb (sa_from a) (sa_to a).
 
-(** [Arc::from_svg_arc] *)
-Definition from_svg_arc (a : SvgArc) : option (Arc T) :=
-  if is_straight_line a then None else
+(** the arithmetic of [Arc::from_svg_arc] up to the two unit vectors (F.6.5.1 - F.6.5.3), in the
+    order of the Rust code *)
+Record ArcCore := mkArcCore {
+  ac_cos_phi : T; ac_sin_phi : T; ac_p : Vec2 T; ac_rf : T;
+  ac_rx : T; ac_ry : T; ac_sum_of_sq : T; ac_coe : T; ac_tc : Vec2 T;
+  ac_center : Point T; ac_start_v : Vec2 T; ac_end_v : Vec2 T }.
+
+(** F.6.5.2 - F.6.5.3 and the two vectors, from the rotated half chord [p], the mid point [hs]
+    and the (corrected) radii; [neg]: [large_arc == sweep] *)
+Definition arc_geom (cos_phi sin_phi p_x p_y hs_x hs_y rx ry : T) (neg : bool)
+  : T * T * Vec2 T * Point T * Vec2 T * Vec2 T :=
+  let rxry := rx * ry in
+  let rxpy := rx * p_y in
+  let rypx := ry * p_x in
+  let sum_of_sq := rxpy * rxpy + rypx * rypx in
+  let sign_coe := if neg then - f1 else f1 in
+  let coe := sign_coe * fsqrt (fabs ((rxry * rxry - sum_of_sq) / sum_of_sq)) in
+  let tcx := coe * rxpy / ry in
+  let tcy := (- coe) * rypx / rx in
+  let center := mkPoint (cos_phi * tcx - sin_phi * tcy + hs_x) (sin_phi * tcx + cos_phi * tcy + hs_y) in
+  let start_v := mkVec2 ((p_x - tcx) / rx) ((p_y - tcy) / ry) in
+  let end_v := mkVec2 ((- p_x - tcx) / rx) ((- p_y - tcy) / ry) in
+  (sum_of_sq, coe, mkVec2 tcx tcy, center, start_v, end_v).
+
+(** F.6.6.2: radii too small for the chord are scaled up *)
+Definition scale_radii (rx ry rf : T) : T * T :=
+  if rf >? f1 then let scale := fsqrt rf in (rx * scale, ry * scale) else (rx, ry).
+
+Definition svg_arc_core (a : SvgArc) : ArcCore :=
   let rx := fabs (vx (sa_radii a)) in
   let ry := fabs (vy (sa_radii a)) in
   let xr := frem (sa_x_rotation a) two_pi in
@@ -214,25 +243,26 @@ Definition from_svg_arc (a : SvgArc) : option (Arc T) :=
   let p_x := cos_phi * hd_x + sin_phi * hd_y in
   let p_y := (- sin_phi) * hd_x + cos_phi * hd_y in
   let rf := p_x * p_x / (rx * rx) + p_y * p_y / (ry * ry) in
-  let '(rx, ry) := if rf >? f1 then let scale := fsqrt rf in (rx * scale, ry * scale) else (rx, ry) in
-  let rxry := rx * ry in
-  let rxpy := rx * p_y in
-  let rypx := ry * p_x in
-  let sum_of_sq := rxpy * rxpy + rypx * rypx in
-  let sign_coe := if Bool.eqb (sa_large_arc a) (sa_sweep a) then - f1 else f1 in
-  let coe := sign_coe * fsqrt (fabs ((rxry * rxry - sum_of_sq) / sum_of_sq)) in
-  let tcx := coe * rxpy / ry in
-  let tcy := (- coe) * rypx / rx in
-  let center := mkPoint (cos_phi * tcx - sin_phi * tcy + hs_x) (sin_phi * tcx + cos_phi * tcy + hs_y) in
-  let start_v := mkVec2 ((p_x - tcx) / rx) ((p_y - tcy) / ry) in
-  let end_v := mkVec2 ((- p_x - tcx) / rx) ((- p_y - tcy) / ry) in
-  let start_angle := fatan2 (vy start_v) (vx start_v) in
-  let sweep_angle := frem (fatan2 (vy end_v) (vx end_v) - start_angle) two_pi in
-  let sweep_angle :=
-    if sa_sweep a && (sweep_angle <? f0) then sweep_angle + two_pi
-    else if negb (sa_sweep a) && (sweep_angle >? f0) then sweep_angle - two_pi
-    else sweep_angle in
-  Some (mkArc center (mkVec2 rx ry) start_angle sweep_angle (sa_x_rotation a)).
+  let '(rx, ry) := scale_radii rx ry rf in
+  let '(sum_of_sq, coe, tc, center, start_v, end_v) :=
+    arc_geom cos_phi sin_phi p_x p_y hs_x hs_y rx ry (Bool.eqb (sa_large_arc a) (sa_sweep a)) in
+  mkArcCore cos_phi sin_phi (mkVec2 p_x p_y) rf rx ry sum_of_sq coe tc center start_v end_v.
+
+(** the sweep angle from the two angles and the sweep flag *)
+Definition sweep_of (sweep : bool) (start_angle end_angle : T) : T :=
+  let sweep_angle := frem (end_angle - start_angle) two_pi in
+  if sweep && (sweep_angle <? f0) then sweep_angle + two_pi
+  else if negb sweep && (sweep_angle >? f0) then sweep_angle - two_pi
+  else sweep_angle.
+
+(** [Arc::from_svg_arc]; [safe]: with the repair of the degenerate case *)
+Definition from_svg_arc (safe : bool) (a : SvgArc) : option (Arc T) :=
+  if is_straight_line a then None else
+  let c := svg_arc_core a in
+  if safe && (ac_sum_of_sq c =? f0) then None else
+  let start_angle := fatan2 (vy (ac_start_v c)) (vx (ac_start_v c)) in
+  let sweep_angle := sweep_of (sa_sweep a) start_angle (fatan2 (vy (ac_end_v c)) (vx (ac_end_v c))) in
+  Some (mkArc (ac_center c) (mkVec2 (ac_rx c) (ac_ry c)) start_angle sweep_angle (sa_x_rotation a)).
 
 (** arc.rs [rotate_pt], [sample_ellipse] *)
 Definition rotate_pt (pt : Vec2 T) (angle : T) : Vec2 T :=
@@ -282,10 +312,14 @@ Definition arc_cubics (a : Arc T) (tolerance : T) : list (PathEl T) :=
 Definition to_radians (x : T) : T := x * (fpi / fofZ 180).
 
 (** what the [A]/[a] arm pushes onto the path *)
-Definition arc_els (from to : Point T) (radii : Point T) (x_rotation : T) (large sweep : bool)
+Definition arc_els (safe : bool) (from to : Point T) (radii : Point T) (x_rotation : T) (large sweep : bool)
   : list (PathEl T) :=
-  match from_svg_arc (mkSvgArc from to (to_vec2 radii) x_rotation large sweep) with
-  | Some arc => arc_cubics arc lit_tenth
+  match from_svg_arc safe (mkSvgArc from to (to_vec2 radii) x_rotation large sweep) with
+  | Some arc =>
+      match arc_cubics arc lit_tenth with
+      | [] => if safe then [LineTo to] else []
+      | els => els
+      end
   | None => [LineTo to]
   end.
 
@@ -331,11 +365,9 @@ Definition smooth_ctrl (cubic : bool) (last_cmd : Z) (last_pt : Point T) (last_c
 Definition step_bind {A} (x : res A) (f : A -> StepRes) : StepRes :=
   match x with Ok a => f a | Err e => SErr e end.
 
-(** one iteration of the [while let Some(c) = lexer.get_cmd(last_cmd)] loop *)
-Definition step (st : PState) (s : list Z) : StepRes :=
-  match get_cmd (cfg_plus cfg) (ps_last_cmd st) s with
-  | None => SDone
-  | Some (c, s1) =>
+(** the body of the [while let Some(c) = lexer.get_cmd(last_cmd)] loop for command byte [c],
+    [s1] being the input after [get_cmd] *)
+Definition step_cmd (st : PState) (c : Z) (s1 : list Z) : StepRes :=
       let is_m := (c =? 109)%Z || (c =? 77)%Z in
       if negb is_m && negb (ps_started st) then SErr UninitializedPath else
       let pre := if is_m then [] else
@@ -386,12 +418,18 @@ Definition step (st : PState) (s : list Z) : StepRes :=
           step_bind (get_flag (opt_comma s4)) (fun '(sweep, s5) =>
           step_bind (get_maybe_relative lp c (opt_comma s5)) (fun '(p, s6) =>
             SNext (mkPState true c (Some p) fp None p)
-                  (pre ++ arc_els lp p radii x_rotation large sweep) s6)))))
+                  (pre ++ arc_els (cfg_arc cfg) lp p radii x_rotation large sweep) s6)))))
       | Some KZ =>
           SNext (mkPState true (ps_last_cmd st) (if cfg_smooth cfg then None else lc) fp (Some fp) fp)
                 (pre ++ [ClosePath]) s1
       | None => SErr (UnknownCommand c)
-      end
+      end.
+
+(** one iteration of the loop *)
+Definition step (st : PState) (s : list Z) : StepRes :=
+  match get_cmd (cfg_plus cfg) (ps_last_cmd st) s with
+  | None => SDone
+  | Some (c, s1) => step_cmd st c s1
   end.
 
 (** the command loop.  Every iteration that continues consumes at least one byte
